@@ -51,7 +51,7 @@ type c18plan struct{ imp64, imp256, imp2d, edge, rnd64, rnd256, rnd2d, disp int 
 
 func c18Plan(tier string) c18plan {
 	if tier == "thorough" {
-		return c18plan{64, 256, 64, 2, 10000, 10000, 20000, 1500}
+		return c18plan{64, 256, 64, 2, 60000, 60000, 120000, 8000}
 	}
 	return c18plan{64, 256, 64, 2, 400, 400, 1200, 120}
 }
